@@ -360,3 +360,632 @@ Theorem enc_injective : forall c c2, enc c = enc c2 -> c = c2.
 Proof. intros c. exact (proj1 (enc_injective_all c)). Qed.
 Theorem enc_site_injective : forall c c2, enc_site c = enc_site c2 -> c = c2.
 Proof. intros c. exact (proj2 (enc_injective_all c)). Qed.
+
+(* ================================================================================================================ *)
+(* 3. the content of an analysed node, computed from the program                                                    *)
+(* ================================================================================================================ *)
+Definition cargctx := (list (bytes * option bytes) * option content)%type.   (* named_args, the call site *)
+
+Definition known_args (named : list (bytes * option bytes)) : list (bytes * bytes) :=
+  flat_map (fun nh => match snd nh with Some h => [(fst nh, h)] | None => [] end) named.
+
+Definition cargs (A : cargctx) : aerr + arg_content :=
+  let '(named, site) := A in
+  if existsb (fun nh => match snd nh with None => true | Some _ => false end) named then
+    match site with
+    | None => inl ErrAssertCtx
+    | Some c => inr (ArgsFromContext c)
+    end
+  else inr (ArgsKnown (known_args named)).
+
+Definition cst3 := (list content * list (bytes * dg) * sresolved)%type.
+
+Section Content.
+  Variable hv : pyval -> hres.
+  Variable hl : list bytes -> hres.
+
+  Definition clines (ls : list bytes) : aerr + bytes :=
+    match hl ls with HOk h => inr h | e => inl (ErrHash e) end.
+
+  Fixpoint cvars (vars : list (bytes * pyval)) : aerr + list (bytes * bytes) :=
+    match vars with
+    | [] => inr []
+    | (n, v) :: r =>
+      match hv v with
+      | HOk h => match cvars r with inr l => inr ((n, h) :: l) | inl e => inl e end
+      | e => inl (ErrHash e)
+      end
+    end.
+
+  (* the same recursion as [sana]; the only terms it handles are the signatures registered in / read from the
+     resolved references, [enc] of the content of the node that produced them *)
+  Fixpoint cana (f : fn) (A : cargctx) (R : sresolved) {struct f} : aerr + (content * sresolved) :=
+    match f with
+    | Fn name _ _ lines params annot is_class bds =>
+      if is_class then
+        match cana_bodies bds lines A R with
+        | inl e => inl e
+        | inr (ms, R') =>
+          match clines lines with
+          | inl e => inl e
+          | inr lh => inr (Content lh (ArgsKnown []) [] ms [] [], R')
+          end
+        end
+      else
+        match bds with
+        | BCons b _ =>
+          match cana_body b lines A R with
+          | inl e => inl e
+          | inr (c, R') => inr (c, match annot with Some p => srupdate p (enc c) R' | None => R' end)
+          end
+        | BNil => inl ErrEmpty
+        end
+    end
+  with cana_bodies (bds : bodies) (lines : list bytes) (A : cargctx) (R : sresolved) {struct bds}
+       : aerr + (list content * sresolved) :=
+    match bds with
+    | BNil => inr ([], R)
+    | BCons b r =>
+      match cana_body b lines A R with
+      | inl e => inl e
+      | inr (c, R') =>
+        match cana_bodies r lines A R' with
+        | inl e => inl e
+        | inr (cs, R'') => inr (c :: cs, R'')
+        end
+      end
+    end
+  with cana_body (b : body) (lines : list bytes) (A : cargctx) (R : sresolved) {struct b} : aerr + (content * sresolved) :=
+    match b with
+    | Body vars exts sts =>
+      match cargs A with
+      | inl e => inl e
+      | inr a =>
+        match cvars vars with
+        | inl e => inl e
+        | inr vs =>
+          match cana_steps sts lines a exts vs ([], [], R) with
+          | inl e => inl e
+          | inr (ch, loads, R') =>
+            match clines lines with
+            | inl e => inl e
+            | inr lh => inr (Content lh a loads ch exts vs, R')
+            end
+          end
+        end
+      end
+    end
+  with cana_steps (sts : steps) (lines : list bytes) (a : arg_content) (exts vs : list (bytes * bytes)) (acc : cst3)
+       {struct sts} : aerr + cst3 :=
+    match sts with
+    | SNil => inr acc
+    | SCons s r =>
+      match cana_step s lines a exts vs acc with
+      | inl e => inl e
+      | inr acc' => cana_steps r lines a exts vs acc'
+      end
+    end
+  with cana_step (s : step) (lines : list bytes) (a : arg_content) (exts vs : list (bytes * bytes)) (acc : cst3)
+       {struct s} : aerr + cst3 :=
+    let '(ch, loads, R) := acc in
+    match s with
+    | SLoad p =>
+      match srlookup p R with
+      | None => inl (ErrLoadBeforeStore p)
+      | Some sg => inr (ch, srupdate p sg loads, R)
+      end
+    | SApply _ => inr acc
+    | SCall line eline g _ =>
+      match clines (firstn (Nat.max (S line) eline) lines) with
+      | inl e => inl e
+      | inr ph =>
+        match scallee_ctx_plain hv g with
+        | inl e => inl (ErrArg e)
+        | inr named =>
+          match cana g (named, Some (Content ph a loads ch exts vs)) R with
+          | inl e => inl e
+          | inr (c, R') => inr (ch ++ [c], loads, R')
+          end
+        end
+      end
+    | SRef line g _ =>
+      match clines (firstn (Nat.max (S line) line) lines) with
+      | inl e => inl e
+      | inr ph =>
+        match scallee_ctx_plain hv g with
+        | inl e => inl (ErrArg e)
+        | inr named =>
+          match cana g (named, Some (Content ph a loads ch exts vs)) R with
+          | inl e => inl e
+          | inr (c, R') => inr (ch ++ [c], loads, R')
+          end
+        end
+      end
+    | SKeep line eline p g pos kw =>
+      match clines (firstn (Nat.max (S line) eline) lines) with
+      | inl e => inl e
+      | inr ph =>
+        match sarg_ctx_ast hv (fn_params g) 0 (map snd pos) (map (fun nk => (fst nk, snd (snd nk))) kw) with
+        | inl e => inl (ErrArg e)
+        | inr named =>
+          match cana g (named, Some (Content ph a loads ch exts vs)) R with
+          | inl e => inl e
+          | inr (c, R') => inr (ch ++ [c], loads, srupdate p (enc c) R')
+          end
+        end
+      end
+    end.
+
+  (* the content of the node analysed by [sana hv hl f (named, option_map enc_site site) R] *)
+  Definition content_of (f : fn) (A : cargctx) (R : sresolved) : option content :=
+    match cana f A R with inr (c, _) => Some c | inl _ => None end.
+
+  (* ---- agreement of the two analyses ---- *)
+  Definition skey (A : cargctx) : sargctx := (fst A, option_map enc_site (snd A)).
+
+  Definition agree (r : aerr + (sfi * sresolved)) (r' : aerr + (content * sresolved)) : Prop :=
+    match r, r' with
+    | inl e, inl e' => e = e'
+    | inr (x, R), inr (c, R') => sfi_sig x = enc c /\ R = R'
+    | _, _ => False
+    end.
+  Definition agree_l (r : aerr + (list sfi * sresolved)) (r' : aerr + (list content * sresolved)) : Prop :=
+    match r, r' with
+    | inl e, inl e' => e = e'
+    | inr (xs, R), inr (cs, R') => map sfi_sig xs = map enc cs /\ R = R'
+    | _, _ => False
+    end.
+  Definition agree3 (r : aerr + sst3) (r' : aerr + cst3) : Prop :=
+    match r, r' with
+    | inl e, inl e' => e = e'
+    | inr (xs, l, R), inr (cs, l', R') => map sfi_sig xs = map enc cs /\ l = l' /\ R = R'
+    | _, _ => False
+    end.
+
+  Lemma shash_lines_clines : forall ls,
+    shash_lines hl ls = match clines ls with inl e => inl e | inr h => inr (DBytes h) end.
+  Proof. intros ls. unfold shash_lines, clines. destruct (hl ls); reflexivity. Qed.
+
+  Lemma enc_known_flat : forall named,
+    flat_map (fun nh : bytes * option bytes => match snd nh with Some h => [(k_arg (fst nh), DBytes h)] | None => [] end) named
+    = enc_known (known_args named).
+  Proof.
+    induction named as [|[n [h|]] t IH]; [reflexivity| |].
+    - cbn [flat_map known_args snd fst app]. unfold enc_known in *. cbn [map fst snd]. f_equal. exact IH.
+    - cbn [flat_map known_args snd fst app]. exact IH.
+  Qed.
+
+  Lemma sargpairs_cargs : forall A,
+    sargpairs (skey A) = match cargs A with inl e => inl e | inr a => inr (enc_args a) end.
+  Proof.
+    intros [named site]. unfold sargpairs, cargs, skey. cbn [fst snd].
+    destruct (existsb _ named).
+    - destruct site as [c|]; reflexivity.
+    - rewrite enc_known_flat. reflexivity.
+  Qed.
+
+  Lemma svarpairs_cvars : forall vars,
+    svarpairs hv vars = match cvars vars with inl e => inl e | inr vs => inr (enc_vars vs) end.
+  Proof.
+    induction vars as [|[n v] r IH]; [reflexivity|].
+    cbn [svarpairs cvars]. destruct (hv v); try reflexivity.
+    rewrite IH. destruct (cvars r); reflexivity.
+  Qed.
+
+  Lemma input_sig_enc : forall ap ep vp,
+    match SX (ap ++ ep ++ vp) with Some s => s | None => sempty_list_hash end = enc_input ap ep vp.
+  Proof. intros ap ep vp. unfold enc_input, SX. destruct (ap ++ ep ++ vp); reflexivity. Qed.
+
+  Lemma sfis_siglist_from_sigl : forall l i, sfis_siglist_from i l = sigl_from i (map sfi_sig l).
+  Proof. induction l as [|x l IH]; intros i; [reflexivity|]. cbn [sfis_siglist_from map sigl_from]. rewrite IH. reflexivity. Qed.
+  Lemma sfis_siglist_sigl : forall l, sfis_siglist l = sigl_from 0 (map sfi_sig l).
+  Proof. intros l. apply sfis_siglist_from_sigl. Qed.
+
+  Lemma SX_opt_entry : forall k l, match SX l with Some h => [(k, h)] | None => [] end = opt_entry k l.
+  Proof. intros k [|x l]; reflexivity. Qed.
+
+  Lemma scall_ctx_site : forall lines line eline a exts vs inters ch loads,
+    map sfi_sig inters = map enc ch ->
+    scall_ctx hl lines line eline (enc_input (enc_args a) (sextpairs exts) (enc_vars vs)) inters loads =
+    match clines (firstn (Nat.max (S line) eline) lines) with
+    | inl e => inl e
+    | inr ph => inr (enc_site (Content ph a loads ch exts vs))
+    end.
+  Proof.
+    intros lines line eline a exts vs inters ch loads Hi. unfold scall_ctx.
+    rewrite shash_lines_clines. destruct (clines _) as [e|ph]; [reflexivity|].
+    rewrite !SX_opt_entry, sfis_siglist_sigl, Hi, enc_site_eq. reflexivity.
+  Qed.
+
+  Lemma sfi_sig_set_path : forall x p, sfi_sig (sfi_set_path x p) = sfi_sig x.
+  Proof. intros [s q n a l c] p. reflexivity. Qed.
+
+  (* one-step unfoldings *)
+  Lemma sana_eq : forall name tag raises lines params annot is_class bds A R,
+    sana hv hl (Fn name tag raises lines params annot is_class bds) A R =
+    if is_class then
+      match sana_bodies hv hl bds name lines None A R with
+      | inl e => inl e
+      | inr (mfis, R') =>
+        match shash_lines hl lines with
+        | inl e => inl e
+        | inr bsig =>
+          match SX ((k_body_sig, bsig) :: sfis_siglist mfis) with
+          | None => inl ErrEmpty
+          | Some s => inr (SFI s None name (List.length (fst A)) [] mfis, R')
+          end
+        end
+      end
+    else match bds with
+         | BCons b _ =>
+           match sana_body hv hl b name lines annot A R with
+           | inl e => inl e
+           | inr (x, R') => inr (x, match annot with Some p => srupdate p (sfi_sig x) R' | None => R' end)
+           end
+         | BNil => inl ErrEmpty
+         end.
+  Proof. reflexivity. Qed.
+
+  Lemma sana_bodies_cons : forall b r name lines annot A R,
+    sana_bodies hv hl (BCons b r) name lines annot A R =
+    match sana_body hv hl b name lines annot A R with
+    | inl e => inl e
+    | inr (x, R') =>
+      match sana_bodies hv hl r name lines annot A R' with
+      | inl e => inl e
+      | inr (xs, R'') => inr (x :: xs, R'')
+      end
+    end.
+  Proof. reflexivity. Qed.
+
+  Lemma sana_body_eq : forall vars exts sts name lines annot A R,
+    sana_body hv hl (Body vars exts sts) name lines annot A R =
+    match sargpairs A with
+    | inl e => inl e
+    | inr ap =>
+      match svarpairs hv vars with
+      | inl e => inl e
+      | inr vp =>
+        match sana_steps hv hl sts lines
+                (match SX (ap ++ sextpairs exts ++ vp) with Some s => s | None => sempty_list_hash end) ([], [], R) with
+        | inl e => inl e
+        | inr (inters, loads, R') =>
+          match shash_lines hl lines with
+          | inl e => inl e
+          | inr bsig =>
+            match SX ([(k_body_sig, bsig)] ++ ap ++ sdep_pairs loads ++ sfis_siglist inters ++ sextpairs exts ++ vp) with
+            | None => inl ErrEmpty
+            | Some s => inr (SFI s annot name (List.length (fst A)) (map fst loads) inters, R')
+            end
+          end
+        end
+      end
+    end.
+  Proof. reflexivity. Qed.
+
+  Lemma sana_steps_cons : forall s r lines isig acc,
+    sana_steps hv hl (SCons s r) lines isig acc =
+    match sana_step hv hl s lines isig acc with
+    | inl e => inl e
+    | inr acc' => sana_steps hv hl r lines isig acc'
+    end.
+  Proof. reflexivity. Qed.
+
+  Definition scall_g (g : fn) (cr : aerr + dg) (nr : actx_err + list (bytes * option bytes))
+             (post : sfi -> sresolved -> sst3) (R : sresolved) : aerr + sst3 :=
+    match cr with
+    | inl e => inl e
+    | inr c =>
+      match nr with
+      | inl e => inl (ErrArg e)
+      | inr named =>
+        match sana hv hl g (named, Some c) R with
+        | inl e => inl e
+        | inr (t, R') => inr (post t R')
+        end
+      end
+    end.
+
+  Lemma sana_step_SCall : forall line eline g args lines isig inters loads R,
+    sana_step hv hl (SCall line eline g args) lines isig (inters, loads, R) =
+    scall_g g (scall_ctx hl lines line eline isig inters loads) (scallee_ctx_plain hv g)
+            (fun t R' => (inters ++ [t], loads, R')) R.
+  Proof. reflexivity. Qed.
+  Lemma sana_step_SRef : forall line g ex lines isig inters loads R,
+    sana_step hv hl (SRef line g ex) lines isig (inters, loads, R) =
+    scall_g g (scall_ctx hl lines line line isig inters loads) (scallee_ctx_plain hv g)
+            (fun t R' => (inters ++ [t], loads, R')) R.
+  Proof. reflexivity. Qed.
+  Lemma sana_step_SApply : forall g lines isig acc, sana_step hv hl (SApply g) lines isig acc = inr acc.
+  Proof. intros g lines isig [[inters loads] R]. reflexivity. Qed.
+  Lemma sana_step_SKeep : forall line eline p g pos kw lines isig inters loads R,
+    sana_step hv hl (SKeep line eline p g pos kw) lines isig (inters, loads, R) =
+    scall_g g (scall_ctx hl lines line eline isig inters loads)
+            (sarg_ctx_ast hv (fn_params g) 0 (map snd pos) (map (fun nk => (fst nk, snd (snd nk))) kw))
+            (fun t R' => (inters ++ [sfi_set_path t p], loads, srupdate p (sfi_sig t) R')) R.
+  Proof. reflexivity. Qed.
+  Lemma sana_step_SLoad : forall p lines isig inters loads R,
+    sana_step hv hl (SLoad p) lines isig (inters, loads, R) =
+    match srlookup p R with
+    | None => inl (ErrLoadBeforeStore p)
+    | Some sg => inr (inters, srupdate p sg loads, R)
+    end.
+  Proof. reflexivity. Qed.
+
+  Lemma cana_eq : forall name tag raises lines params annot is_class bds A R,
+    cana (Fn name tag raises lines params annot is_class bds) A R =
+    if is_class then
+      match cana_bodies bds lines A R with
+      | inl e => inl e
+      | inr (ms, R') =>
+        match clines lines with
+        | inl e => inl e
+        | inr lh => inr (Content lh (ArgsKnown []) [] ms [] [], R')
+        end
+      end
+    else match bds with
+         | BCons b _ =>
+           match cana_body b lines A R with
+           | inl e => inl e
+           | inr (c, R') => inr (c, match annot with Some p => srupdate p (enc c) R' | None => R' end)
+           end
+         | BNil => inl ErrEmpty
+         end.
+  Proof. reflexivity. Qed.
+
+  Lemma cana_bodies_cons : forall b r lines A R,
+    cana_bodies (BCons b r) lines A R =
+    match cana_body b lines A R with
+    | inl e => inl e
+    | inr (c, R') =>
+      match cana_bodies r lines A R' with
+      | inl e => inl e
+      | inr (cs, R'') => inr (c :: cs, R'')
+      end
+    end.
+  Proof. reflexivity. Qed.
+
+  Lemma cana_body_eq : forall vars exts sts lines A R,
+    cana_body (Body vars exts sts) lines A R =
+    match cargs A with
+    | inl e => inl e
+    | inr a =>
+      match cvars vars with
+      | inl e => inl e
+      | inr vs =>
+        match cana_steps sts lines a exts vs ([], [], R) with
+        | inl e => inl e
+        | inr (ch, loads, R') =>
+          match clines lines with
+          | inl e => inl e
+          | inr lh => inr (Content lh a loads ch exts vs, R')
+          end
+        end
+      end
+    end.
+  Proof. reflexivity. Qed.
+
+  Lemma cana_steps_cons : forall s r lines a exts vs acc,
+    cana_steps (SCons s r) lines a exts vs acc =
+    match cana_step s lines a exts vs acc with
+    | inl e => inl e
+    | inr acc' => cana_steps r lines a exts vs acc'
+    end.
+  Proof. reflexivity. Qed.
+
+  Definition ccall_g (g : fn) (cr : aerr + bytes) (site : bytes -> content) (nr : actx_err + list (bytes * option bytes))
+             (post : content -> sresolved -> cst3) (R : sresolved) : aerr + cst3 :=
+    match cr with
+    | inl e => inl e
+    | inr ph =>
+      match nr with
+      | inl e => inl (ErrArg e)
+      | inr named =>
+        match cana g (named, Some (site ph)) R with
+        | inl e => inl e
+        | inr (c, R') => inr (post c R')
+        end
+      end
+    end.
+
+  Lemma cana_step_SCall : forall line eline g args lines a exts vs ch loads R,
+    cana_step (SCall line eline g args) lines a exts vs (ch, loads, R) =
+    ccall_g g (clines (firstn (Nat.max (S line) eline) lines)) (fun ph => Content ph a loads ch exts vs)
+            (scallee_ctx_plain hv g) (fun c R' => (ch ++ [c], loads, R')) R.
+  Proof. reflexivity. Qed.
+  Lemma cana_step_SRef : forall line g ex lines a exts vs ch loads R,
+    cana_step (SRef line g ex) lines a exts vs (ch, loads, R) =
+    ccall_g g (clines (firstn (Nat.max (S line) line) lines)) (fun ph => Content ph a loads ch exts vs)
+            (scallee_ctx_plain hv g) (fun c R' => (ch ++ [c], loads, R')) R.
+  Proof. reflexivity. Qed.
+  Lemma cana_step_SApply : forall g lines a exts vs acc, cana_step (SApply g) lines a exts vs acc = inr acc.
+  Proof. intros g lines a exts vs [[ch loads] R]. reflexivity. Qed.
+  Lemma cana_step_SKeep : forall line eline p g pos kw lines a exts vs ch loads R,
+    cana_step (SKeep line eline p g pos kw) lines a exts vs (ch, loads, R) =
+    ccall_g g (clines (firstn (Nat.max (S line) eline) lines)) (fun ph => Content ph a loads ch exts vs)
+            (sarg_ctx_ast hv (fn_params g) 0 (map snd pos) (map (fun nk => (fst nk, snd (snd nk))) kw))
+            (fun c R' => (ch ++ [c], loads, srupdate p (enc c) R')) R.
+  Proof. reflexivity. Qed.
+  Lemma cana_step_SLoad : forall p lines a exts vs ch loads R,
+    cana_step (SLoad p) lines a exts vs (ch, loads, R) =
+    match srlookup p R with
+    | None => inl (ErrLoadBeforeStore p)
+    | Some sg => inr (ch, srupdate p sg loads, R)
+    end.
+  Proof. reflexivity. Qed.
+
+  (* the statements proved by mutual induction over the program *)
+  Definition AG_fn (f : fn) : Prop := forall A R, agree (sana hv hl f (skey A) R) (cana f A R).
+  Definition AG_body (b : body) : Prop := forall name lines annot A R,
+    agree (sana_body hv hl b name lines annot (skey A) R) (cana_body b lines A R).
+  Definition AG_bodies (bds : bodies) : Prop :=
+    (forall name lines annot A R,
+       agree_l (sana_bodies hv hl bds name lines annot (skey A) R) (cana_bodies bds lines A R)) /\
+    match bds with BCons b _ => AG_body b | BNil => True end.
+  Definition AG_steps (sts : steps) : Prop := forall lines a exts vs inters ch loads R,
+    map sfi_sig inters = map enc ch ->
+    agree3 (sana_steps hv hl sts lines (enc_input (enc_args a) (sextpairs exts) (enc_vars vs)) (inters, loads, R))
+           (cana_steps sts lines a exts vs (ch, loads, R)).
+  Definition AG_step (s : step) : Prop := forall lines a exts vs inters ch loads R,
+    map sfi_sig inters = map enc ch ->
+    agree3 (sana_step hv hl s lines (enc_input (enc_args a) (sextpairs exts) (enc_vars vs)) (inters, loads, R))
+           (cana_step s lines a exts vs (ch, loads, R)).
+
+  (* a call: the context term is the encoding of the call site *)
+  Lemma AG_call : forall g, AG_fn g ->
+    forall lines line eline a exts vs inters ch loads R nr posts postc,
+    map sfi_sig inters = map enc ch ->
+    (forall t c R', sfi_sig t = enc c ->
+       match posts t R', postc c R' with (xs, l, R1), (cs, l', R2) => map sfi_sig xs = map enc cs /\ l = l' /\ R1 = R2 end) ->
+    agree3 (scall_g g (scall_ctx hl lines line eline (enc_input (enc_args a) (sextpairs exts) (enc_vars vs)) inters loads)
+                    nr posts R)
+           (ccall_g g (clines (firstn (Nat.max (S line) eline) lines)) (fun ph => Content ph a loads ch exts vs)
+                    nr postc R).
+  Proof.
+    intros g Hg lines line eline a exts vs inters ch loads R nr posts postc Hi Hpost.
+    rewrite (scall_ctx_site lines line eline a exts vs inters ch loads Hi).
+    unfold scall_g, ccall_g. destruct (clines _) as [e|ph]; [reflexivity|].
+    destruct nr as [e|named]; [reflexivity|].
+    specialize (Hg (named, Some (Content ph a loads ch exts vs)) R). unfold skey in Hg. cbn [fst snd option_map] in Hg.
+    destruct (sana hv hl g _ R) as [e|[t R1]]; destruct (cana g _ R) as [e'|[c R2]]; cbn [agree] in Hg; try contradiction.
+    - cbn [agree3]. exact Hg.
+    - destruct Hg as [Hs HR]. subst R2. cbn [agree3]. exact (Hpost t c R1 Hs).
+  Qed.
+
+  Lemma AG_all :
+    (forall f, AG_fn f) /\ (forall b, AG_bodies b) /\ (forall b, AG_body b) /\ (forall s, AG_steps s) /\ (forall s, AG_step s).
+  Proof.
+    apply prog_mutind.
+    - (* Fn *)
+      intros name tag raises lines params annot is_class bds [Hb Hb1] A R.
+      rewrite sana_eq, cana_eq. destruct is_class.
+      + specialize (Hb name lines None A R).
+        destruct (sana_bodies hv hl bds name lines None (skey A) R) as [e|[xs R1]];
+          destruct (cana_bodies bds lines A R) as [e'|[cs R2]]; cbn [agree_l] in Hb; try contradiction.
+        * exact Hb.
+        * destruct Hb as [Hs HR]. subst R2. rewrite shash_lines_clines.
+          destruct (clines lines) as [e|lh]; [reflexivity|].
+          cbn [SX agree sfi_sig]. split; [|reflexivity].
+          rewrite enc_eq, enc_args_known, sfis_siglist_sigl, Hs.
+          cbn [enc_known sdep_pairs sextpairs enc_vars map app]. rewrite app_nil_r. reflexivity.
+      + destruct bds as [|b r]; [reflexivity|].
+        specialize (Hb1 name lines annot A R).
+        destruct (sana_body hv hl b name lines annot (skey A) R) as [e|[x R1]];
+          destruct (cana_body b lines A R) as [e'|[c R2]]; cbn [agree] in Hb1; try contradiction.
+        * exact Hb1.
+        * destruct Hb1 as [Hs HR]. subst R2. cbn [agree]. split; [exact Hs|]. rewrite Hs. reflexivity.
+    - (* BNil *)
+      split; [|exact I]. intros name lines annot A R. cbn [sana_bodies cana_bodies agree_l map]. split; reflexivity.
+    - (* BCons *)
+      intros b Hb r [Hr _]. split; [|exact Hb]. intros name lines annot A R.
+      rewrite sana_bodies_cons, cana_bodies_cons. specialize (Hb name lines annot A R).
+      destruct (sana_body hv hl b name lines annot (skey A) R) as [e|[x R1]];
+        destruct (cana_body b lines A R) as [e'|[c R2]]; cbn [agree] in Hb; try contradiction.
+      + exact Hb.
+      + destruct Hb as [Hs HR]. subst R2. specialize (Hr name lines annot A R1).
+        destruct (sana_bodies hv hl r name lines annot (skey A) R1) as [e|[xs R1']];
+          destruct (cana_bodies r lines A R1) as [e'|[cs R2']]; cbn [agree_l] in Hr; try contradiction.
+        * exact Hr.
+        * destruct Hr as [Hs' HR']. subst R2'. cbn [agree_l map]. split; [rewrite Hs, Hs'|]; reflexivity.
+    - (* Body *)
+      intros vars exts sts Hsts name lines annot A R.
+      rewrite sana_body_eq, cana_body_eq, sargpairs_cargs, svarpairs_cvars.
+      destruct (cargs A) as [e|a]; [reflexivity|]. destruct (cvars vars) as [e|vs]; [reflexivity|].
+      rewrite input_sig_enc.
+      specialize (Hsts lines a exts vs [] [] [] R eq_refl).
+      destruct (sana_steps hv hl sts lines _ ([], [], R)) as [e|[[inters loads] R1]];
+        destruct (cana_steps sts lines a exts vs ([], [], R)) as [e'|[[ch loads'] R2]]; cbn [agree3] in Hsts;
+        try contradiction.
+      + exact Hsts.
+      + destruct Hsts as (Hs & Hl & HR). subst loads' R2. rewrite shash_lines_clines.
+        destruct (clines lines) as [e|lh]; [reflexivity|].
+        cbn [SX app agree sfi_sig]. split; [|reflexivity].
+        rewrite enc_eq, sfis_siglist_sigl, Hs. reflexivity.
+    - (* SNil *)
+      intros lines a exts vs inters ch loads R Hi. cbn [sana_steps cana_steps agree3]. auto.
+    - (* SCons *)
+      intros s Hs r Hr lines a exts vs inters ch loads R Hi.
+      rewrite sana_steps_cons, cana_steps_cons. specialize (Hs lines a exts vs inters ch loads R Hi).
+      destruct (sana_step hv hl s lines _ (inters, loads, R)) as [e|[[inters1 loads1] R1]];
+        destruct (cana_step s lines a exts vs (ch, loads, R)) as [e'|[[ch1 loads1'] R1']]; cbn [agree3] in Hs;
+        try contradiction.
+      + exact Hs.
+      + destruct Hs as (Hs1 & Hl & HR). subst loads1' R1'. apply Hr. exact Hs1.
+    - (* SCall *)
+      intros line eline g Hg args lines a exts vs inters ch loads R Hi.
+      rewrite sana_step_SCall, cana_step_SCall. apply AG_call; [exact Hg|exact Hi|].
+      intros t c R' Ht. rewrite !map_app, Hi. cbn [map]. rewrite Ht. auto.
+    - (* SRef *)
+      intros line g Hg ex lines a exts vs inters ch loads R Hi.
+      rewrite sana_step_SRef, cana_step_SRef. apply AG_call; [exact Hg|exact Hi|].
+      intros t c R' Ht. rewrite !map_app, Hi. cbn [map]. rewrite Ht. auto.
+    - (* SApply *)
+      intros g Hg lines a exts vs inters ch loads R Hi.
+      rewrite sana_step_SApply, cana_step_SApply. cbn [agree3]. auto.
+    - (* SKeep *)
+      intros line eline p g Hg pos kw lines a exts vs inters ch loads R Hi.
+      rewrite sana_step_SKeep, cana_step_SKeep. apply AG_call; [exact Hg|exact Hi|].
+      intros t c R' Ht. rewrite !map_app, Hi. cbn [map]. rewrite sfi_sig_set_path, Ht. auto.
+    - (* SLoad *)
+      intros p lines a exts vs inters ch loads R Hi.
+      rewrite sana_step_SLoad, cana_step_SLoad. destruct (srlookup p R) as [sg|]; cbn [agree3]; auto.
+  Qed.
+
+  (* the signature term computed by [sana] is the encoding of the content computed by [cana]; the two analyses fail
+     together, with the same error, and leave the same resolved references *)
+  Theorem sana_cana : forall f A R, agree (sana hv hl f (skey A) R) (cana f A R).
+  Proof. exact (proj1 AG_all). Qed.
+
+  Lemma sana_content : forall f A R x R',
+    sana hv hl f (skey A) R = inr (x, R') -> exists c, cana f A R = inr (c, R') /\ sfi_sig x = enc c.
+  Proof.
+    intros f A R x R' Hs. pose proof (sana_cana f A R) as Hag. rewrite Hs in Hag.
+    destruct (cana f A R) as [e|[c R2]]; cbn [agree] in Hag; [contradiction|].
+    destruct Hag as [Hsig HR]. subst R2. exists c. split; [reflexivity|exact Hsig].
+  Qed.
+
+  (* ============================================================================================================== *)
+  (* 4. the signature is an injective function of the content                                                        *)
+  (* ============================================================================================================== *)
+  (* [A], [A2]: the named arguments and, for a node whose arguments are only known at run time, the call site. *)
+  Theorem sig_injective : forall f A R x R' f2 A2 R2 x2 R2',
+    sana hv hl f (skey A) R = inr (x, R') -> sana hv hl f2 (skey A2) R2 = inr (x2, R2') ->
+    sfi_sig x = sfi_sig x2 ->
+    content_of f A R = content_of f2 A2 R2 /\ content_of f A R <> None.
+  Proof.
+    intros f A R x R' f2 A2 R2 x2 R2' H1 H2 Hsig.
+    destruct (sana_content f A R x R' H1) as (c & Hc & Hx).
+    destruct (sana_content f2 A2 R2 x2 R2' H2) as (c2 & Hc2 & Hx2).
+    unfold content_of. rewrite Hc, Hc2. rewrite Hx, Hx2 in Hsig. apply enc_injective in Hsig. subst c2.
+    split; [reflexivity|discriminate].
+  Qed.
+
+  (* root calls (dds.eval / dds.keep at top level: DdsEval.analysis): no call-site context *)
+  Corollary sig_injective_root : forall f named R x R' f2 named2 R2 x2 R2',
+    sana hv hl f (named, None) R = inr (x, R') -> sana hv hl f2 (named2, None) R2 = inr (x2, R2') ->
+    sfi_sig x = sfi_sig x2 ->
+    content_of f (named, None) R = content_of f2 (named2, None) R2 /\ content_of f (named, None) R <> None.
+  Proof.
+    intros f named R x R' f2 named2 R2 x2 R2'. exact (sig_injective f (named, None) R x R' f2 (named2, None) R2 x2 R2').
+  Qed.
+
+  (* nothing is dropped: two analysed nodes whose contents differ have different signature terms *)
+  Theorem sig_sensitive : forall f A R x R' f2 A2 R2 x2 R2',
+    sana hv hl f (skey A) R = inr (x, R') -> sana hv hl f2 (skey A2) R2 = inr (x2, R2') ->
+    content_of f A R <> content_of f2 A2 R2 -> sfi_sig x <> sfi_sig x2.
+  Proof.
+    intros f A R x R' f2 A2 R2 x2 R2' H1 H2 Hne Hsig. apply Hne.
+    exact (proj1 (sig_injective f A R x R' f2 A2 R2 x2 R2' H1 H2 Hsig)).
+  Qed.
+End Content.
+
+(* one differing piece of content is enough: lines, arguments (one literal argument hash, or the call site), one load
+   (path or signature found), one child, one external name, one variable hash *)
+Theorem enc_sensitive : forall lh a loads ch exts vars lh2 a2 loads2 ch2 exts2 vars2,
+  lh <> lh2 \/ a <> a2 \/ loads <> loads2 \/ ch <> ch2 \/ exts <> exts2 \/ vars <> vars2 ->
+  enc (Content lh a loads ch exts vars) <> enc (Content lh2 a2 loads2 ch2 exts2 vars2).
+Proof.
+  intros lh a loads ch exts vars lh2 a2 loads2 ch2 exts2 vars2 Hne Heq. apply enc_injective in Heq.
+  injection Heq as E1 E2 E3 E4 E5 E6.
+  destruct Hne as [N|[N|[N|[N|[N|N]]]]]; apply N; assumption.
+Qed.
